@@ -26,7 +26,8 @@ RULE = ('span types x span length (4 quick / 6 thorough) x every ordered (start,
         '{none, exception, silent non-finite, warning non-finite, non-convergence} at every period of the range x errors x failures x '
         'min_iter in {0, 3 = max_iter} x catch_first_error, each compared with the twin loop AND with the statuses the reference state machine prescribes; plus solve_period(label) vs solve_t(pos) for every label, ambiguous year label on a quarterly index, empty span. '
         'states = distinct final observations, transitions = solver calls executed, traces = cases compared with the twin loop; '
-        'non-trivial = at least one period solved or a rejection checked')
+        'non-trivial = at least one period solved or a rejection checked'
+        ' The pairs also under an ambient warnings filter that turns warnings into errors (errors in skip/ignore/replace).')
 ASSUMPTIONS = [
     'solve_t itself is judged by C02/C06; here it is the reference for solve()',
     'labels of pandas indexes are compared with ==',
@@ -111,7 +112,8 @@ def _run_pair_case(case):
     init = observe(a)
     start, end = label_of(labels, si, kind), label_of(labels, ei, kind)
     out = []
-    ra = refsolve.call_outcome(a.solve, start=start, end=end, **kw)
+    # (`ambient`: the warnings filter of the calling process, e.g. `python -W error`; the loop of single-period solves runs under the usual one)
+    ra = refsolve.call_outcome(a.solve, start=start, end=end, _ambient=case.get('ambient', 'ignore'), **kw)
     if str(si).startswith('absent') or str(ei).startswith('absent'):
         if ra[0] != 'KeyError':
             out.append(('unknown-label:not-KeyError', 'KeyError', ra[0], 'unknown start/end label must raise KeyError'))
@@ -226,6 +228,22 @@ def run_pairs(block, tier, acc):
             acc.nontrivial += 1 if (calls or str(si).startswith('absent') or str(ei).startswith('absent')) else 0
             for key, exp, obs, what in v:
                 acc.violation(key + ':stacked-mixins', case, exp, obs, what)
+        # the same pair called from a process whose own warnings filter turns warnings into exceptions (the policies decide, not the caller's filter)
+        for fpos, fault in fault_places:
+            for errors in ('skip', 'ignore', 'replace'):
+                case = dict(kind='pairs', span=kind, n=n, si=si, ei=ei, fpos=fpos, fault=fault, errors=errors, failures='ignore', min_iter=0, cfe=True, ambient='error')
+                acc.evaluations += 1
+                try:
+                    with guard(10):
+                        v, calls = run_pair_case(case)
+                except CaseTimeout:
+                    acc.violation('timeout', case, 'termination', 'timeout')
+                    continue
+                acc.traces += 1
+                acc.transitions += calls + 1
+                acc.nontrivial += 1 if (calls or str(si).startswith('absent') or str(ei).startswith('absent')) else 0
+                for key, exp, obs, what in v:
+                    acc.violation(key + ':ambient-warnings-filter', case, exp, obs, what)
         for fpos, fault in fault_places:
             for errors in ('raise', 'skip', 'ignore', 'replace'):
                 for failures in ('raise', 'ignore'):
